@@ -309,6 +309,11 @@ def scanWord (w : List Char) (cs : List Char) : Option (Str × List Char) :=
   | some (m, r) => if notIdentCont env r then some (m, r) else none
   | none => none
 
+/-- the BOOLEAN token action (grammar.py): `re.I` also matches non-ASCII case twins (U+017F long s for `s`), so a match that is
+    not `true` / `false` in some ASCII letter case (`t.value.lower() not in ("true", "false")`) is handed to the identifier rule -/
+def boolOrIdent (v : Str) : Tok :=
+  if v.map asciiLower == "true".toList || v.map asciiLower == "false".toList then .lit .bool v else .ident ⟨v, []⟩
+
 /-- `\s+kw\s+` -/
 def scanOp (w : List Char) (cs : List Char) : Option (List Char) := do
   let (_, r) ← span1 env.isSpace cs
@@ -370,8 +375,8 @@ def lexOne (cs : List Char) : Option (Tok × List Char) :=
   else if let some (v, r) := scanTime env cs then some (.lit .time v, r)
   else if let some (v, r) := scanDecimal env cs then some (.lit .float v, r)
   else if let some (v, r) := scanInteger env cs then some (.lit .int v, r)
-  else if let some (v, r) := scanWord env "true".toList cs then some (.lit .bool v, r)
-  else if let some (v, r) := scanWord env "false".toList cs then some (.lit .bool v, r)
+  else if let some (v, r) := scanWord env "true".toList cs then some (boolOrIdent v, r)
+  else if let some (v, r) := scanWord env "false".toList cs then some (boolOrIdent v, r)
   else if let some (_, r) := scanWord env "null".toList cs then some (.lit .null [], r)
   else if let some r := scanOp env "add".toList cs then some (.arith .add, r)
   else if let some r := scanOp env "sub".toList cs then some (.arith .sub, r)
